@@ -8,6 +8,9 @@ package main
 import (
 	"fmt"
 	"go/token"
+	"strings"
+
+	"golang.org/x/tools/go/ssa"
 )
 
 type accessRec struct {
@@ -18,13 +21,14 @@ type accessRec struct {
 }
 
 type raceMon struct {
-	cells map[*Value][]accessRec
-	objs  map[interface{}][]accessRec
-	found *Violation
+	cells     map[*Value][]accessRec
+	objs      map[interface{}][]accessRec
+	found     *Violation
+	harnessFn map[*ssa.Function]bool
 }
 
 func newRaceMon() *raceMon {
-	return &raceMon{cells: map[*Value][]accessRec{}, objs: map[interface{}][]accessRec{}}
+	return &raceMon{cells: map[*Value][]accessRec{}, objs: map[interface{}][]accessRec{}, harnessFn: map[*ssa.Function]bool{}}
 }
 
 func vcGet(vc []int, i int) int {
@@ -121,15 +125,34 @@ func (r *raceMon) check(e *Exec, th *Thread, recs []accessRec, write bool, pos t
 	return append(out, rec)
 }
 
+// inHarness reports whether the thread currently executes harness code (stubs
+// and oracles are not the subject of the race check).
+func (r *raceMon) inHarness(e *Exec, th *Thread) bool {
+	if th == nil || th.top == nil || th.top.fn == nil {
+		return true
+	}
+	fn := th.top.fn
+	if v, ok := r.harnessFn[fn]; ok {
+		return v
+	}
+	name := e.P.fset.Position(fn.Pos()).Filename
+	for p := fn; name == "" && p != nil; p = p.Parent() {
+		name = e.P.fset.Position(p.Pos()).Filename
+	}
+	h := strings.Contains(name, "zz_verif") || strings.Contains(name, "/internal/vstub/") || strings.Contains(name, "/internal/vnd/") || !strings.HasPrefix(name, "/repo/")
+	r.harnessFn[fn] = h
+	return h
+}
+
 func (r *raceMon) access(e *Exec, th *Thread, p *Value, write bool, pos token.Pos) {
-	if len(e.threads) < 2 {
+	if len(e.threads) < 2 || r.inHarness(e, th) {
 		return
 	}
 	r.cells[p] = r.check(e, th, r.cells[p], write, pos)
 }
 
 func (r *raceMon) accessObj(e *Exec, th *Thread, o interface{}, write bool, pos token.Pos) {
-	if len(e.threads) < 2 {
+	if len(e.threads) < 2 || r.inHarness(e, th) {
 		return
 	}
 	r.objs[o] = r.check(e, th, r.objs[o], write, pos)
